@@ -44,6 +44,7 @@ class CrateInfo:
         self.enum_discr = {}      # EnumName -> {variant: explicit discriminant}
         self.inherent_hdr = {}    # inherent impl fn name -> self type text of its impl header
         self.aliases_full = {}    # non-generic alias -> full aliased type text
+        self.traits = set()       # traits defined in this crate
         self.aliases = {}         # type alias name -> last segment of the aliased type
         for d in src_dirs:
             self._scan_items(os.path.join(repo_root, d))
@@ -144,6 +145,8 @@ class CrateInfo:
         src = open(path, encoding='utf-8').read()
         # blank out comments, strings and char literals, keep offsets
         clean = self._blank(src)
+        for m in re.finditer(r'\btrait\s+(\w+)', clean):
+            self.traits.add(m.group(1))
         for m in re.finditer(r'\btype\s+(\w+)\s*(<[^=;]*>)?\s*=\s*([^;{]+);', clean):
             tgt = last_seg(m.group(3))
             if tgt and tgt[0].isupper() and tgt != m.group(1):
